@@ -154,6 +154,12 @@ func (g *mkGen) value() (string, ExpVal) {
 		return s, ExpVal{Kind: "int", I: i}
 	case 2:
 		s := r.Pick("1.05", "0.007", "2.50", "3.14159", "10.001", "0.5", "12.0", "1.10", "0.00001")
+		if r.Bool() {
+			// any literal: the value is the double nearest to the written decimal (what ParseFloat gives), not
+			// the result of some arithmetic on its parts
+			s = randomDecimal(r)
+			g.feat("value:decimal-random-literal")
+		}
 		f, _ := strconv.ParseFloat(s, 64)
 		g.feat("value:decimal")
 		if strings.Contains(s, ".0") {
@@ -291,6 +297,20 @@ func (g *mkGen) selfClosing() {
 	g.markerWritten()
 }
 
+// randomDecimal writes a decimal literal with one to seven fraction digits.
+func randomDecimal(r *core.Rand) string {
+	ip := r.Pick("0", "1", "2", "7", "19", "100", "4095", "65536")
+	if r.Bool() {
+		ip = strconv.Itoa(r.Intn(1000))
+	}
+	n := 1 + r.Intn(7)
+	var b strings.Builder
+	for i := 0; i < n; i++ {
+		b.WriteByte(byte('0' + r.Intn(10)))
+	}
+	return ip + "." + b.String()
+}
+
 func quoteProp(s string) string { return `"` + s + `"` }
 
 func (g *mkGen) replacement() {
@@ -330,6 +350,13 @@ func (g *mkGen) replacement() {
 	case 1:
 		name = "plural"
 		val := r.Pick("0", "1", "2", "11", "21", "1.0", "1.5", "100")
+		if r.Chance(1, 3) {
+			val = randomDecimal(r)
+			if f, _ := strconv.ParseFloat(val, 64); f < 0.001 {
+				val = "3" + val // tiny values would be displayed with an exponent, which nothing specifies
+			}
+			g.feat("replacement:plural:random-decimal")
+		}
 		one, other := r.Pick("% apple", "une pomme", "%"), r.Pick("% apples", "des pommes", "%s")
 		head = "plural value=" + val + " one=" + quoteProp(one) + " other=" + quoteProp(other)
 		props["value"], props["one"], props["other"] = numVal(val), str(one), str(other)
